@@ -446,3 +446,83 @@ Definition cap_well_typed (tree : mtype) (p : list step) : bool :=
 
 Definition bytes_cap_well_typed (tree : mtype) (p : list step) : bool :=
   match type_at tree p with Some TBytes => true | _ => false end.
+
+(* ---------------------------------------------------------------- why an evaluation is undefined
+   Same walk as model_evaluate_ops, but the undefined outcomes are split: XMissing — an undefined / absent value, an
+   index out of range, a key not present, a function returning None (what a rule author expects to be undefined);
+   XMismatch — the *shape* of the value does not fit the operation the compiler type-checked (subfield of a
+   non-object, subscript of a non-collection or with the wrong kind of index, call of a non-function, no index
+   expression left): the silent failure C17 is about. *)
+Inductive xres : Type := XOk (v : mvalue) | XMissing | XMismatch.
+
+Fixpoint explain_ops (v : mvalue) (ops : list vop) (exprs : list prim) : xres :=
+  match ops with
+  | [] => XOk v
+  | OpSubfield name :: ops' =>
+      match v with
+      | VObject fields =>
+          match assoc name fields with
+          | Some v' => explain_ops v' ops' exprs
+          | None => XMissing
+          end
+      | VUndefined => XMissing
+      | _ => XMismatch
+      end
+  | OpSubscript :: ops' =>
+      match exprs with
+      | [] => XMismatch
+      | subscript :: exprs' =>
+          match v with
+          | VArray elems =>
+              match subscript with
+              | PInteger index =>
+                  match usize_try_from index with
+                  | Some i => match vec_get elems i with
+                              | Some v' => explain_ops v' ops' exprs'
+                              | None => XMissing
+                              end
+                  | None => XMissing
+                  end
+              | _ => XMismatch
+              end
+          | VDict entries =>
+              match subscript with
+              | PBytes key => match dict_get key entries with
+                              | Some v' => explain_ops v' ops' exprs'
+                              | None => XMissing
+                              end
+              | _ => XMismatch
+              end
+          | VUndefined => XMissing
+          | _ => XMismatch
+          end
+      end
+  | OpCall nargs :: ops' =>
+      match v with
+      | VFunction f =>
+          match f (firstn nargs exprs) with
+          | Some v' => explain_ops v' ops' (skipn nargs exprs)
+          | None => XMissing
+          end
+      | VUndefined => XMissing
+      | _ => XMismatch
+      end
+  end.
+
+(* the index / argument values have the kinds the compiler saw (the evaluator's own typing invariant) *)
+Definition prim_ety (p : prim) : ety :=
+  match p with
+  | PInteger _ => EInteger | PFloat _ => EFloat | PBytes _ => EBytes | PRegex _ => ERegex | PBoolean _ => EBoolean
+  end.
+
+Fixpoint exprs_match (path : list top) (exprs : list prim) : Prop :=
+  match path with
+  | [] => True
+  | TopSubfield _ :: path' => exprs_match path' exprs
+  | TopSubscript e :: path' =>
+      match exprs with
+      | p :: exprs' => prim_ety p = e /\ exprs_match path' exprs'
+      | [] => False
+      end
+  | TopCall args :: path' => exprs_match path' (skipn (length args) exprs)
+  end.
